@@ -116,8 +116,8 @@ def run(tier, seed):
     v.note("functions", {"params": sum(1 for r in recs if r["kind"] == "params"), "functions": sum(1 for r in recs if r["kind"] == "func"),
                          "refused_by_code": nraised, "end_histories": sum(1 for r in recs if r["kind"] == "ends"),
                          "interior_moved_m": [round(r["interior_moved_m"], 6) for r in recs if r["kind"] == "ends"]})
-    if any(r["kind"] == "ends" and r["interior_moved_m"] < 1e-5 for r in recs):
-        v.fail_machinery("a redistribution history moved no interior point: the EndPointsFixed clause would be vacuous")
+    if not any(r["kind"] == "ends" and r["interior_moved_m"] > 1e-5 for r in recs):
+        v.fail_machinery("no redistribution history moved an interior point: the EndPointsFixed clause would be vacuous")
     fn = [r for r in recs if r["kind"] == "func" and not r["raised"]]
     if fn:
         v.sample({"engine": "C->S function", "case": {k: fn[0][k] for k in ("method", "kinds", "L", "N", "N_norm", "pl", "pu")}, "s_over_L_1e9": fn[0]["s"], "endg": fn[0]["endg"]})
